@@ -29,7 +29,7 @@ RULES = [
  ("MatrixConnector as", r"cast\|usize->u16", "loop variable of 0..num_right/num_left, both parsed from a u16 header (or <= 65536 rows in the dual connector)", None),
  ("MatrixConnector as", r"index\(arg1\.data,index\(arg1\)\)|index_mut\(from_elem\(0\),index\(arg1\)\)", "index() of ids < num_right/num_left (loop bound / permutation values) is < num_right*num_left = data.len()", MAPLEN),
  ("RawConnector as", r"assert:Overflow", "id * row width with id <= number of rows: the product is an offset into an allocated vector", None),
- ("RawConnector as", r"index(_mut)?\((from_elem\(default\(\)\)|arg1\.(right|left)_feat_ids),agg\)|copy_from_slice", "row ranges id*w..(id+1)*w with id < num (loop bound / permutation value) lie inside vectors of num*w elements; source and destination rows have equal width", MAPLEN),
+ ("RawConnector as", r"index(_mut)?\((from_elem\(default\(\)\)|arg1\.(right|left)_feat_ids),Range\(|copy_from_slice", "row ranges id*w..(id+1)*w with id < num (loop bound / permutation value) lie inside vectors of num*w elements; source and destination rows have equal width", MAPLEN),
  ("RawConnector as vibrato::dictionary::connector::Connector>::num_", r"DivisionByZero", "feat_template_size is non-zero for every connector the builder returns (empty models are rejected)", FTS),
  ("U31x8 as bincode::Decode", r"assert_failed", "debug_assert_eq!(size_of_val([U31; 8]), 32): compile-time fact of the type", None),
  # ---- char.def
@@ -54,9 +54,9 @@ RULES = [
  # ---- raw connector construction
  ("RawConnector::from_readers", r"Add\(Div\(Sub|Mul\(Add\(Div", "rounding feat_template_size (max number of features on a line) up to a multiple of 8", None),
  ("RawConnector::from_readers", r"Mul\(Add\(len\(_\.(right|left)_feat_ids_tmp\),1\)", "(number of lines + 1) * widest line: a wrap needs > 2^32 lines and > 2^31 features on one line, i.e. more than 16 GiB of parsed input already held in memory", None),
- ("RawConnector::from_readers", r"index_mut\(from_elem\(2147483647\),agg\)", "ranges ..w and w.. of a vector of (n+1)*w elements", None),
+ ("RawConnector::from_readers", r"index_mut\(from_elem\(2147483647\),Range(To|From)\(", "ranges ..w and w.. of a vector of (n+1)*w elements", None),
  ("RawConnector::from_readers", r"chunks_mut", "chunk size feat_template_size is non-zero: RawConnectorBuilder::from_readers returns Err for an empty model and rounding up keeps it non-zero", FTS),
- ("RawConnector::from_readers", r"index_mut\(next\(_\)\.#0,agg\)|copy_from_slice", "trg is one row of width feat_template_size >= src.len() (the width is the maximum line length, rounded up)", None),
+ ("RawConnector::from_readers", r"index_mut\(next\(_\)\.#0,RangeTo\(len\(|copy_from_slice", "trg is one row of width feat_template_size >= src.len() (the width is the maximum line length, rounded up)", None),
  ("parse_cost", r"unwrap", "ids are map sizes: 2^31 distinct feature strings would need more than 48 GiB of keys", None),
  ("Scorer::retrieve_cost", r"index\(arg1\.costs", "pos < checks.len() was just established by checks.get(pos), and costs has the same length (ScorerBuilder::build resizes both together; Scorer::decode rejects different lengths)", None),
  ("ScorerBuilder::build", r"index_mut\(from_elem\(0\),next", "key1 enumerates self.trie and bases has trie.len() slots", None),
@@ -65,13 +65,13 @@ RULES = [
  ("ScorerBuilder::build", r"unwrap\(try_from\(next", "key1 < trie.len() <= number of interned right features < 2^31", None),
  ("ScorerBuilder::build", r"index_mut\(new\(\),from_u32", "both vectors were resized to pos+1 just above when pos was beyond the end", None),
  ("ScorerBuilder::insert", r"Add\(from_u32|index_mut\(arg1\.trie", "trie is resized to key1+1 just above; key1 is a u32 feature id", None),
- ("to_simd_vec", r"index_mut\(_,agg\)|copy_from_slice", "xs is a chunk of at most SIMD_SIZE = 8 elements (chunks(8)), array has 8", None),
+ ("to_simd_vec", r"index_mut\(_,RangeTo\(len\(|copy_from_slice", "xs is a chunk of at most SIMD_SIZE = 8 elements (chunks(8)), array has 8", None),
  ("to_simd_vec", r"assert_failed", "debug_assert_eq!(size_of_val([U31; 8]), 32): compile-time fact", None),
  # ---- lexicon CSV
  ("Lexicon::parse_csv", r"assert:Overflow\|Add\(", "running totals of bytes/fields consumed from the input slice: bounded by its length", None),
- ("Lexicon::parse_csv", r"array::index\(_,agg\)", "nout <= output.len() is csv-core's read_field contract", None),
- ("Lexicon::parse_csv", r"index::index\(arg1,agg\)", "nin <= bytes.len() is csv-core's read_field contract", None),
- ("Lexicon::parse_csv", r"index::index\(var:&\[u8\],agg\)", "record_end_pos / features_len sum the nin of the fields read since record_bytes / features_bytes were set, so the ranges stay inside those slices; the feature length only counts bytes consumed after the feature base was set (checked name-free by the FEATSPAN abstract interpretation)", FEATLEN),
+ ("Lexicon::parse_csv", r"array::index\(_,RangeTo\(read_field\(_\)\.#2\)\)", "nout <= output.len() is csv-core's read_field contract", None),
+ ("Lexicon::parse_csv", r"index::index\(arg1,RangeFrom\(read_field\(_\)\.#1\)\)", "nin <= bytes.len() is csv-core's read_field contract", None),
+ ("Lexicon::parse_csv", r"index::index\(var:&\[u8\],RangeTo\(", "record_end_pos / features_len sum the nin of the fields read since record_bytes / features_bytes were set, so the ranges stay inside those slices; the feature length only counts bytes consumed after the feature base was set (checked name-free by the FEATSPAN abstract interpretation)", FEATLEN),
  ("WordParams::get", r"index\(arg1\.params,arg2\)", "called from Lexicon::verify with the loop variable of 0..params.len() (tokenization-path callers are out of scope here)", None),
  ("ConnIdMapper::left", r"index\(arg1\.left", "ids handed to the mapper are < num_left: lexicon/unknown ids are verified in build() and, for a user lexicon, by verify() BEFORE map_connection_ids in reset_user_lexicon_from_reader (checked: VERIFYMAP); loop indices in the connectors; and the mapper's length equals the connector's (MAPLEN)", VERIFYMAP),
  ("ConnIdMapper::right", r"index\(arg1\.right", "as for left()", VERIFYMAP),
